@@ -1,16 +1,31 @@
+from vf.driver import Cond
 from vf.props import common as C
 
 
 def plan(tier):
-    conds = []
-    conds += C.t_upd_conds("C04", tier)
+    conds = C.t_upd_conds("C04", tier)
+    names = ("BEV.idle", "BEV.consume_energy", "BEV.add_energy", "ICE.idle", "ICE.consume_energy", "ICE.add_energy")
+    for case in range(6):
+        conds.append(Cond("vf.h.h_led", "h_led", case=case, timeout=300, label=f"H04-led[{names[case]}]", weight=3))
+    conds.append(Cond("vf.h.k_curve", "curve_inductive", case=0, timeout=300, engine="smt", label="H04-curve-inductive[shipped 41-point table]", weight=2))
+    conds.append(Cond("vf.h.k_curve", "curve_inductive", case=2, timeout=300, engine="smt", label="H04-curve-inductive[4-point table, 30 s]", weight=2))
+    conds.append(Cond("vf.h.k_curve", "curve", case=1, timeout=300, engine="smt", label="H04-curve-unrolled[shipped, symbolic duration <= 60 s]", weight=2))
+    conds.append(Cond("vf.h.k_curve", "curve", case=0, timeout=900, engine="smt", label="H04-curve-unrolled[shipped, durations 1..179 s]", weight=8))
+    if tier == "thorough":
+        conds.append(Cond("vf.h.k_curve", "curve", case=2, timeout=900, engine="smt", label="H04-curve-unrolled[4-point, durations 1..89 s]", weight=8))
     return {
         "conds": conds,
-        "min_classes": 20,
-        "explanation": 'C04: one step keeps 0 <= energy <= capacity, energy change == gained - expended, totals non-decreasing, strictly positive expenditure when driving/idling/queueing, charging bounded by plug rate x step, out-of-energy stops instead of moving.',
-        "entry_points": ['step_simulation_ops.step_vehicle (VehicleState.update -> default_update -> move/charge/idle/pick_up_trip/drop_off_trip)'],
-        "bounds": C.ARENA_BOUNDS + C.T_BOUNDS,
-        "outside": C.T_OUTSIDE,
-        "stubs": C.STUBS_COMMON + C.STUBS_UPD,
-        "assumptions": ["pre-state satisfies INV (DESIGN 3.2); INV base case is the loader's initial state"],
+        "min_classes": 30,
+        "explanation": "C04: (a) T-upd: one real vehicle update from an arbitrary INV state keeps 0 <= energy <= capacity, energy change == gained - expended, totals non-decreasing, "
+                       "strictly positive expenditure when driving / idling / queueing with energy left, charging bounded by plug rate x step, an empty vehicle stops instead of moving. "
+                       "(b) H04-led: the six ledger kernels of BEV and ICE with symbolic capacity, idle rate, plug rate, taper cutoff and a duck-typed powertrain with symbolic cost. "
+                       "(c) H04-curve: a z3 encoding generated from the AST of the real TabularPowercurve.charge (shipped 41-point table): loop-invariant form (any duration, any number of "
+                       "sub-steps: init / step / variant / exit obligations) and unrolled form with unwinding obligation and translation validation against the real function.",
+        "entry_points": ["step_simulation_ops.step_vehicle", "BEV.idle/consume_energy/add_energy", "ICE.idle/consume_energy/add_energy", "TabularPowercurve.charge",
+                         "vehicle_state_ops.move/charge", "Vehicle.tick_energy_expended/tick_energy_gained/modify_energy"],
+        "bounds": C.ARENA_BOUNDS + C.T_BOUNDS[1:] + ["H04-led: capacity 1..500, rates 0..500, cost 0..1000, step from {1,7,60,100,120} s (rate x time with both symbolic is non-linear)",
+                                                      "H04-curve: start <= limit <= 50 kWh, power 0..500 kW; inductive form: any real duration; unrolled: durations {1,7,30,59,60,61,90,119,120,121,179} s and symbolic <= 60 s"],
+        "outside": C.T_OUTSIDE + ["TabularPowertrain.link_cost itself (numpy interp on concrete speeds: run for real in T-upd)", "rounding drift over long histories (floats as reals)"],
+        "stubs": C.STUBS_COMMON + C.STUBS_UPD + ["py2smt: np.interp encoded as a nested ite over the table read from the real object; float constants as decimal literals"],
+        "assumptions": ["pre-state satisfies INV"],
     }
